@@ -2926,8 +2926,10 @@ def corr_robust(ctx, drv, n):
                 ctx.corr('types.sectors.' + param, json_types_case(case), 'match' if ok else repr([s_.rotation for s_ in secs]),
                          'match', key=key + ('sec',))
         # R2: array layouts of add_border_user / calc_rotated_pos
-        for _ in range(n):
-            case = gen_layout_case(ctx.rng, ctx.rng.choice(['add_border_user', 'calc_rotated_pos']))
+        for turn in range(n):
+            # the first two cases are the required 'strided' layouts (a required branch must not depend on the seed)
+            case = gen_layout_case(ctx.rng, ctx.rng.choice(['add_border_user', 'calc_rotated_pos'])) if turn >= 2 else \
+                gen_layout_case(ctx.rng, ['add_border_user', 'calc_rotated_pos'][turn], 'strided')
             key = ('clayout', repr(case))
             if case['api'] == 'add_border_user':
                 if case['variant'] in ('empty',):
